@@ -110,6 +110,9 @@ Fixpoint feats_upd_id (id : N) (g : feat -> feat) (l : list feat) : list feat :=
   | f :: r => if N.eqb (f_id f) id then g f :: r else f :: feats_upd_id id g r
   end.
 
+Definition with_desc (f : feat) (d : N) : feat :=
+  {| f_id := f_id f; f_type := f_type f; f_role := f_role f; f_desc := d; f_ops := f_ops f |}.
+
 Definition with_ops (f : feat) (ops : list (N * opflags)) : feat :=
   {| f_id := f_id f; f_type := f_type f; f_role := f_role f; f_desc := f_desc f; f_ops := ops |}.
 
@@ -173,11 +176,15 @@ Inductive op :=
 | Burst (e : N) (calls : list bcall)     (* overlapping calls on entity object e, one goroutine each, released together *)
 | Reconnect (p : N)                      (* peer p's connection closes (RemoveRemoteDeviceConnection: its subscriptions go) and
                                             is set up again, announcing the same client features *)
-| During (add : bool) (e : positive) (q : N) (i : dinner).
+| During (add : bool) (e : positive) (q : N) (i : dinner)
       (* AddEntity e / RemoveEntity e whose first notification write to peer q is stalled inside the connection
          writer; while it is stalled [i] runs to completion; then the write is released.  The notification is
          sent outside every lock and from data fixed before the first write (the rendered entity, the list of
          subscription entries), so this is AddEntity / RemoveEntity followed by [i]; q is schedule only *)
+| SetDescr (e fid d : N).
+      (* FeatureLocal.SetDescriptionString(custom text d) on the existing feature fid of entity object e, at any
+         point of its life (before or after it has been announced); Information() reads the description anew
+         every time, so the next reply / notification carries the new text *)
 
 Inductive obs :=
 | Created | Exists | NoEntity | AlreadyMember
@@ -433,6 +440,17 @@ Definition step_base (recheck inplace : bool) (s : st) (o : op) : st * list obs 
       ({| objs := objs s; ctrs := ctrs s; members := members s;
           subs := filter (fun x : N * N => negb (N.eqb (fst x) p)) (subs s); thr := thr s; rds := rds s |}, [OkDone])
   | During _ _ _ _ => (s, [BadBurst])
+  | SetDescr e fid d =>
+      match assoc_N e (objs s) with
+      | None => (s, [NoEntity])
+      | Some o =>
+          match find_id fid (e_feats o) with
+          | None => (s, [NoFeature])
+          | Some _ =>
+              (* custom text d is description code 1 + d, as in AddFeature *)
+              (set_objs s (upd_feats e (feats_upd_id fid (fun f => with_desc f (N.succ d))) (objs s)), [OkDone])
+          end
+      end
   end.
 
 Definition ent_op (add : bool) (e : positive) : op := if add then AddEntity e else RemoveEntity e.
@@ -489,7 +507,7 @@ Definition run_inplace := run_gen true true.
    op:  0 e ty | 1 e | 2 e | 3 e ty role desc (fn r w ps)* | 4 e fid fn r w ps | 5 e | 6 e ty role |
         7 t e ty role | 8 t | 9 p c | 10 p c | 11 p | 12 t p | 13 t |
         14 e (kind ty role)*   kind 0 BNext (ty role ignored) 1 BAdd 2 BGet |
-        15 add e q kind p      kind 0 IRead 1 IReconnect | 16 p
+        15 add e q kind p      kind 0 IRead 1 IReconnect | 16 p | 17 e fid d
    obs: 0 Created 1 Exists 2 NoEntity 3 AlreadyMember | 4 id | 5 id new | 6 Miss 7 NoThread 8 BusyT | 9 ok |
         10 p c ok | 11 p ok | 12 e ty lsc | 13 e id ty role desc rid rty rrole | 14 fn r rp w wp | 15 REnd |
         16 p | 17 OkDone 18 NoFeature | 19 Parked 20 ReadPanicked | 21 BadBurst | 22 n Len | 23 Blocked *)
@@ -544,6 +562,7 @@ Definition parse_op (l : list Z) : option op :=
       else if Z.eqb k 1 then Some (During (bZ add) e (Nz q) (IReconnect (Nz p)))
       else None
   | [16; p] => Some (Reconnect (Nz p))
+  | [17; e; fid; d] => Some (SetDescr (Nz e) (Nz fid) (Nz d))
   | 14 :: e :: calls =>
       match parse_calls calls with
       | Some x => Some (Burst (Nz e) x)
